@@ -21,7 +21,7 @@ MANIFEST = {
              'analysed once (one call per element per iteration); that the loop visits every element is Rust\'s iter_mut semantics.'),
 }
 EXPLANATION = 'Counter / interval / history inventories over the type tree, decided on SVN exit terms and CFG dominance.'
-RULES = ['C19-1.counters', 'C19-2.order', 'C19-3.save', 'C19-4.interval', 'C19-5.historyvec']
+RULES = ['C19-1.counters', 'C19-2.order', 'C19-3.save', 'C19-4.interval', 'C19-5.historyvec', 'C19-6.drivers']
 ASSUMPTIONS = ['Vec::iter_mut visits every element exactly once (language semantics)']
 
 ROOTS = ['LocomotiveSimulation', 'ConsistSimulation', 'SetSpeedTrainSim', 'SpeedLimitTrainSim']
@@ -152,6 +152,7 @@ def run(ctx):
     interval(ctx, tree, eng, stateful)
     historyvec(ctx, eng)
     defaults(ctx, eng)
+    drivers(ctx)
 
 
 # ------------------------------------------------------------------ C19-1
@@ -493,3 +494,64 @@ def defaults(ctx, eng):
     distinct = {show(v) for v in vals.values()}
     ctx.check(len(distinct) == 1 and len(vals) >= 7, 'C19-1.counters', 'Default counters', 'all %d state structs start i at %s' % (len(vals), list(distinct)[:1]),
               'initial counters differ: %s' % {k: show(v) for k, v in vals.items()})
+
+
+# ------------------------------------------------------------------ C19-6
+def drivers(ctx):
+    """C19-6.drivers: one history entry per step, whichever entry point drives the run.  For each simulation root type,
+    every method that (directly or through other such methods) calls the root's `save_state` or `step` is a driver; `step`
+    itself saves once per step (C19-2).  In a driver, a save event — a direct `save_state` call, or a call to a driver that
+    begins with one, like `walk` — may only be the first event: nothing (no step, no other save, no driver call, and not the
+    event itself through a loop) may be able to precede it on any path.  Otherwise the hand-over between two drivers writes a
+    second entry for the same step."""
+    R = 'C19-6.drivers'
+    prog = ctx.prog
+    n_roots = 0
+    n_drivers = 0
+    for r in ROOTS:
+        S_fid, T_fid = r + '::save_state', r + '::step'
+        if S_fid not in prog.by_id or T_fid not in prog.by_id:
+            ctx.unproved(R, r, 'save_state / step of the root not found (anchor)'); continue
+        n_roots += 1
+        methods = [b for b in prog.bodies if b.kind == 'fn' and not b.test and b.fid.startswith(r + '::')
+                   and b.fid not in (S_fid, T_fid, r + '::solve_step')]
+        cfgs = {b.fid: CFG(b) for b in methods}
+        kind = {}          # fid -> 'S' (begins with / contains a save event) | 'T' (steps only)
+        events = {}
+        changed = True
+        while changed:
+            changed = False
+            for b in methods:
+                ev = []
+                for bn, t in cfgs[b.fid].call_sites():
+                    tg = [x.fid for x in prog.resolve(t.callee)]
+                    if S_fid in tg:
+                        ev.append((bn, 'S', 'save_state', t))
+                    elif T_fid in tg:
+                        ev.append((bn, 'T', 'step', t))
+                    else:
+                        for x in tg:
+                            if x in kind and x != b.fid:
+                                ev.append((bn, kind[x], x, t)); break
+                if ev:
+                    k = 'S' if any(e[1] == 'S' for e in ev) else 'T'
+                    if kind.get(b.fid) != k or events.get(b.fid) != ev:
+                        kind[b.fid] = k; events[b.fid] = ev; changed = True
+        for fid in sorted(events):
+            b = prog.by_id[fid]
+            cfg = cfgs[fid]
+            n_drivers += 1
+            bad = []
+            for bn, k, what, t in events[fid]:
+                if k != 'S':
+                    continue
+                for bn2, k2, what2, t2 in events[fid]:
+                    after = set()
+                    for sc in cfg.succ.get(bn2, []):
+                        after |= cfg._reach_from(sc)
+                    if bn in after:
+                        bad.append('%s can follow %s' % (what if what == 'save_state' else what + ' (saves first)', what2))
+            ctx.check(not bad, R, fid, 'saves at most once, before anything else (%s)' % ', '.join('%s' % e[2].split('::')[-1] for e in events[fid]),
+                      'a second history entry can be written for one step: %s' % '; '.join(sorted(set(bad))), ctx.where(b))
+    ctx.floor('simulation roots with drivers', n_roots, 4)
+    ctx.floor('driver methods', n_drivers, 6)
